@@ -1,4 +1,5 @@
 import Verif.Properties.C08
+import Verif.Proofs.RemoveUnusedDangling
 
 /-!
 # C05 — Expand mode: a `$ref`-free document stays `$ref`-free (phase model)
@@ -9,8 +10,8 @@ rest of the pipeline does to its result is modelled: when the expansion left no 
 case of a bundle without reference cycle — every later phase (`normalizeRef`, the import loop,
 `namePointers`, `stripOAIGen`, the fixpoint loop) is the identity, for every document, external
 function and fuel.  So the `$ref`-free, byte-for-byte reproducible output of the expansion is the
-output of Flatten.  (With RemoveUnused the shared sections and the now unreferenced definitions are
-removed afterwards — C06's theorems.)
+output of Flatten.  With RemoveUnused the shared sections and the (now unreferenced) definitions are
+removed and the result is still `$ref`-free (`refFree_removeUnused`).
 -/
 
 namespace C05
@@ -18,7 +19,7 @@ open J Flatten
 
 /-- the analyzer sees no `$ref` in the document (by C11: the document holds none on any position
     that can carry one) -/
-def RefFree (fc : Facts) (d : J) : Prop := Index.refsWhere (fun _ => true) (Analyzer.analyze fc d) = []
+def RefFree (fc : Facts) (d : J) : Prop := Proofs.RemoveUnusedDangling.RefFree fc d
 
 theorem refsWhere_nil (p : String → Bool) (es : List Analyzer.Ent)
     (h : Index.refsWhere (fun _ => true) es = []) : Index.refsWhere p es = [] := by
@@ -50,6 +51,47 @@ theorem refFree_fixed (fc : Facts) (x : Ext) (o : Opts) (fuel : Nat) (d : J)
     flatten fc x o (fuel + 1) (initial fc d) = .ok (initial fc d) :=
   C08.identity_on_normal_forms_multi fc x o fuel d ops hops (refFree_isNF fc x o d h he hr)
 
+/-- with RemoveUnused: the shared sections are dropped, every phase in between is the identity, and
+    the removal loop (no definition is referred to any more) returns a document that is still
+    `$ref`-free — Flatten succeeds and the output holds no `$ref` at all -/
+theorem refFree_removeUnused (fc : Facts) (x : Ext) (o : Opts) (fuel : Nat) (d : J)
+    (ops : List (String × OpRef))
+    (hops : opRefsByRef x (initial fc (RemoveUnused.removeShared d)).idx = .ok ops)
+    (h : RefFree fc d) (he : o.expand = true) (hr : o.removeUnused = true) :
+    ∃ s', flatten fc x o (fuel + 1) (initial fc d) = .ok s' ∧ RefFree fc s'.doc := by
+  let d1 := RemoveUnused.removeShared d
+  have h1 : RefFree fc d1 := Proofs.RemoveUnusedDangling.removeShared_refFree fc d h
+  have hi : (initial fc d).idx = Analyzer.analyze fc d := rfl
+  have hall : allRefs (initial fc d).idx = [] := by rw [hi]; exact refMap_nil _ _ h
+  have hi1 : (initial fc d1).idx = Analyzer.analyze fc (initial fc d1).doc := rfl
+  have hc1 : (initial fc d1).ctx.newRefs = [] := rfl
+  have hall1 : allRefs (initial fc d1).idx = [] := refMap_nil _ _ h1
+  have hsch1 : refMap (· = "schema") (initial fc d1).idx = [] := refMap_nil _ _ h1
+  obtain ⟨d', hd', hfree'⟩ := Proofs.RemoveUnusedDangling.removeUnused_refFree_result fc { refName := refName x } d1 h1
+  refine ⟨reload fc { (initial fc d1) with doc := d' }, ?_, hfree'⟩
+  unfold flatten
+  rw [Proofs.FlattenNF.normalizeRef_nf fc x o _ (by simp [nfNormalize, hall])]
+  simp only [Bind.bind, Outcome.bind, hr, if_true]
+  have hs2 : removeUnusedShared fc (initial fc d) = initial fc d1 := rfl
+  rw [hs2, Proofs.FlattenImport.importReferences_nf fc x o fuel _ hi1 hc1 (by simp [nfLocal, hsch1])]
+  simp only [he, Bool.not_true, Bool.and_false, Bool.false_eq_true, if_false, Pure.pure]
+  have hs5 : stripPointersAndOAIGen fc x o (fuel + 1) (initial fc d1) = .ok (initial fc d1) := by
+    unfold stripPointersAndOAIGen
+    have hnp : nfPointers x (initial fc d1) = true := by
+      unfold nfPointers
+      rw [hall1]
+      rfl
+    rw [Proofs.FlattenNF.namePointers_nf fc x o _ ops hops hi1 hc1 hnp]
+    simp only [Bind.bind, Outcome.bind]
+    rw [Proofs.FlattenNF.stripOAIGen_nf fc x _ hi1 hc1]
+    simp [stripLoop]
+  rw [hs5]
+  simp only []
+  unfold Flatten.removeUnused
+  show (RemoveUnused.removeUnused fc { refName := refName x } ((d1.getObj "definitions").length + 2) d1 >>= _) = _
+  rw [hd']
+  rfl
+
 /-- non-vacuity: a document without any `$ref` (an operation answering with an inline object) -/
 def exampleDoc : J := .obj [
   ("paths", .obj [("/p", .obj [("get", .obj [("responses", .obj [("200", .obj [
@@ -58,7 +100,7 @@ def exampleDoc : J := .obj [
   ("definitions", .obj [("unused", .obj [("type", .str "string")])])]
 
 example : RefFree Facts.reference exampleDoc := by
-  unfold RefFree
+  unfold RefFree Proofs.RemoveUnusedDangling.RefFree
   decide
 
 end C05
